@@ -9,6 +9,12 @@ def MIN_INT : Int := -2147483648
 /-- `coerce_int` raises when `not (MIN_INT <= numeric <= MAX_INT)` holds; this is its negation: `numeric` is accepted. -/
 def intInRange (numeric : Int) : Bool := (!(!(decide (MIN_INT ≤ numeric) && decide (numeric ≤ MAX_INT))))
 
+/-- `coerce_float` raises on `numeric = float(x)` when `numeric != numeric or numeric in (float("inf"), float("-inf"))` (evaluated on representatives
+    of each class): finite values / the infinities / NaN. -/
+def floatRejectsFinite : Bool := false
+def floatRejectsInf : Bool := true
+def floatRejectsNaN : Bool := true
+
 /-- literal kinds admitted by each specified scalar's `parse_literal` (`_typed_coerce(f, *node classes)`) -/
 def literalKinds : List (String × List String) := [
   ("Int", ["int"]),
